@@ -835,6 +835,79 @@ def f5_halved_offsets(ctx, repo):
     ctx.ob("F5-half", f.where, f"at most {cap} shared tuples; index field mask {mask:#x}" if isinstance(mask, int) else "shared tuple cap", ok, "" if ok else "a shared tuple index beyond the mask sets reserved flag bits and decodes as another tuple")
 
 
+
+def _intervals_of(test, var):
+    """(a <= var <= b) or (...)  ->  list of closed integer intervals, or None"""
+    if isinstance(test, ast.BoolOp) and isinstance(test.op, ast.Or):
+        out = []
+        for v in test.values:
+            r = _intervals_of(v, var)
+            if r is None:
+                return None
+            out += r
+        return out
+    conj = test.values if isinstance(test, ast.BoolOp) and isinstance(test.op, ast.And) else [test]
+    lo, hi = None, None
+    for c in conj:
+        if not (isinstance(c, ast.Compare)):
+            return None
+        parts = [c.left] + c.comparators
+        for (a, op, b) in zip(parts, c.ops, parts[1:]):
+            ka, kb = try_fold(a), try_fold(b)
+            if norm(a) == var and isinstance(kb, int):
+                if isinstance(op, ast.GtE):
+                    lo = kb
+                elif isinstance(op, ast.Gt):
+                    lo = kb + 1
+                elif isinstance(op, ast.LtE):
+                    hi = kb
+                elif isinstance(op, ast.Lt):
+                    hi = kb - 1
+                else:
+                    return None
+            elif norm(b) == var and isinstance(ka, int):
+                if isinstance(op, ast.LtE):
+                    lo = ka
+                elif isinstance(op, ast.Lt):
+                    lo = ka + 1
+                elif isinstance(op, ast.GtE):
+                    hi = ka
+                elif isinstance(op, ast.Gt):
+                    hi = ka - 1
+                else:
+                    return None
+            else:
+                return None
+    if lo is None or hi is None:
+        return None
+    return [(lo, hi)]
+
+
+def agl_surrogates(ctx, repo):
+    ctx.rule("AGL-sur", "agl: the code points `uniXXXX` components refuse are exactly the UTF-16 surrogates D800-DFFF, and they are the same hole the `uXXXXXX` form leaves in its accepted range (0000-D7FF, E000-10FFFF)", floor=2)
+    mod = repo.mod("agl.py")
+    f = mod.func("_uniToUnicode")
+    rej = None
+    for n in ast.walk(f.node):
+        if isinstance(n, ast.Call) and call_name(n) == "any" and n.args and isinstance(n.args[0], (ast.GeneratorExp, ast.ListComp)):
+            g = n.args[0]
+            rej = _intervals_of(g.elt, norm(g.generators[0].target))
+    ok = rej == [(0xD800, 0xDFFF)]
+    ctx.ob("AGL-sur", f.where, f"refused code points {[(hex(a), hex(b)) for a, b in rej] if rej else rej}", ok, "" if ok else "surrogates are D800..DFFF; E000 is a valid private-use code point that TTFont names uniE000")
+    g = mod.func("_uToUnicode")
+    acc = None
+    for n in walk_no_nested(g.node):
+        if isinstance(n, ast.If) and any(isinstance(b, ast.Return) for b in n.body):
+            r = _intervals_of(n.test, "value")
+            if r:
+                acc = sorted(r)
+    ok = acc == [(0, 0xD7FF), (0xE000, 0x10FFFF)]
+    ctx.ob("AGL-sur", g.where, f"accepted code points {[(hex(a), hex(b)) for a, b in acc] if acc else acc}", ok)
+    if rej and acc and len(acc) == 2:
+        hole = (acc[0][1] + 1, acc[1][0] - 1)
+        ctx.ob("AGL-sur", mod.rel + ":<module>", f"hole of the u-form {tuple(hex(x) for x in hole)} == refused range of the uni-form", [hole] == rej)
+
+
 # ---------------------------------------------------------------------------
 # F6 literal tables
 # ---------------------------------------------------------------------------
@@ -1111,4 +1184,4 @@ def ttprogram_push(ctx, repo):
     ctx.ob("F5-ttpush", a.where, f"PUSH[ ] optimiser classifies bytes with {tests}", ok)
 
 
-ALL = [ttprogram_push, f5_ps_operands, f5_uint32var, f5_255ushort, f5_base128, f5_points, f5_deltas, f5_subr_bias, f6_tables, f22_fixed_tools, f22_eexec, f22_time, f22_sstruct, tag_ident, f5_triplets, f5_offsize, f5_rebias, f5_device, f5_halved_offsets]
+ALL = [ttprogram_push, f5_ps_operands, f5_uint32var, f5_255ushort, f5_base128, f5_points, f5_deltas, f5_subr_bias, f6_tables, f22_fixed_tools, f22_eexec, f22_time, f22_sstruct, tag_ident, f5_triplets, f5_offsize, f5_rebias, f5_device, f5_halved_offsets, agl_surrogates]
